@@ -249,9 +249,22 @@ def python_checks(s, answer):
     if kv.get('rep') != str(len(s['hist'])) or kv.get('REP_SAME') != '1': tags.append('C17:history-changed')
     if kv.get('GAME_SAME') != '1': tags.append('C17:position-changed')
     try:
-        if int(kv.get('maxgap', '0')) > 16384: tags.append('C09:cadence')      # a stretch of more than 16384 nodes without a poll
+        if int(kv.get('maxgap', '0')) > poll_interval(): tags.append('C09:cadence')      # a stretch of more than one polling interval (16384 nodes) without a poll
     except ValueError: pass
     return tags
+
+_POLL = []
+def poll_interval():
+    """INPUT_POLL_INTERVAL + 1 as the source has it (coq/Gen/Consts.v is regenerated from the source on every run); the property allows
+    'a few tens of thousands' of nodes, so a larger interval than 65536 counts as a violation whatever the source says."""
+    if not _POLL:
+        v = 16384
+        try:
+            m = re.search(r'Definition INPUT_POLL_INTERVAL : N := (0x[0-9a-fA-F]+|\d+)%N', open(os.path.join(vlib.COQ, 'Gen', 'Consts.v')).read())
+            if m: v = int(m.group(1), 0) + 1
+        except Exception: pass
+        _POLL.append(min(v, 65536))
+    return _POLL[0]
 
 def run_property(ctx, props_file, tags, what, tie=True, extra_rule=''):
     vlib.standard_prepare(ctx, props_file)
